@@ -64,7 +64,9 @@ fn exec_multiset(o: &RunOutcome) -> BTreeMap<(String, u64), u32> {
     m
 }
 
-fn run_pair<B: Backend>(mk: &dyn Fn() -> B, case: &Case, cfg: &CaseCfg) -> Result<(RunOutcome, Option<RunOutcome>, bool), String> {
+type Pair = (RunOutcome, Option<RunOutcome>, bool, Option<(RunOutcome, RunOutcome)>);
+
+fn run_pair<B: Backend>(mk: &dyn Fn() -> B, case: &Case, cfg: &CaseCfg) -> Result<Pair, String> {
     let plain = Case { prog: case.prog.clone(), history: strip_restarts(&case.history), fan: case.fan };
     let mut a = run_on_mode(&mk(), case, cfg, false)?;
     let mut pre = false;
@@ -75,7 +77,13 @@ fn run_pair<B: Backend>(mk: &dyn Fn() -> B, case: &Case, cfg: &CaseCfg) -> Resul
         a = run_on_mode(&mk(), case, cfg, true)?;
     }
     let b = run_on_mode(&mk(), &plain, cfg, pre)?;
-    Ok((a, Some(b), pre))
+    // second pair for the executor-invocation comparison (see the worker)
+    let cmp = if cfg.rt_workers == 0 && !pre && viol_keys(&a).is_empty() && viol_keys(&b).is_empty() {
+        Some((run_on_mode(&mk(), case, cfg, true)?, run_on_mode(&mk(), &plain, cfg, true)?))
+    } else {
+        None
+    };
+    Ok((a, Some(b), pre, cmp))
 }
 
 pub fn worker(ctx: &WorkerCtx) -> Report {
@@ -102,7 +110,7 @@ pub fn worker(ctx: &WorkerCtx) -> Report {
         case.history = h;
         let restarts = case.history.iter().filter(|s| matches!(s, Step::Restart)).count() as u64;
         let (mut cfg, _) = pick_cfg(&mut r);
-        let real = ctx.part != "miri" && idx % 20 == 7;
+        let real = cfg!(feature = "fjall") && ctx.part == "native" && idx % 20 == 7;
         let cap = *r.pick(&[1u64, 2, 8, 64, 1 << 18]);
         let workers = *r.pick(&[1usize, 2]);
         let grouping = *r.pick(&[Grouping::Never, Grouping::Random(4), Grouping::Always]);
@@ -146,7 +154,7 @@ pub fn worker(ctx: &WorkerCtx) -> Report {
             shared_for_log = first.lock().unwrap().clone();
             out
         };
-        let (a, b, pre) = match res {
+        let (a, b, pre, cmp) = match res {
             Ok(x) => x,
             Err(e) => {
                 rep.inconclusive.push(format!("case {idx}: {e}"));
@@ -154,6 +162,7 @@ pub fn worker(ctx: &WorkerCtx) -> Report {
             }
         };
         let b = b.unwrap();
+        let shutdown_ok = a.shutdown_ok && b.shutdown_ok;
         if pre {
             rep.count("cases_compared_in_counterfactual_mode_C01-F1", 1);
         }
@@ -177,7 +186,40 @@ pub fn worker(ctx: &WorkerCtx) -> Report {
         }
         rep.count("violations_shared_with_no_restart_run", ka.intersection(&kb).count() as u64);
         if ka.is_empty() && kb.is_empty() {
-            let (ma, mb) = (exec_multiset(&a), exec_multiset(&b));
+            // The comparison is made on a second pair of runs in which the user repairs the
+            // firewalls below every computed query before each query step: without that,
+            // the known finding C01-F1 (an executor-level read that skips the firewall
+            // repair) decides - invisibly, when the stale value happens to equal the right
+            // one - in which epoch a node is re-executed, and a restart changes the timing.
+            let (a, b) = match cmp {
+                Some((x, y)) => {
+                    rep.count("invocation_comparisons_on_firewall_repaired_pairs", 1);
+                    if x.oracle.c01_violated || y.oracle.c01_violated {
+                        // nothing to compare on; the value oracles above have spoken
+                        continue;
+                    }
+                    (x, y)
+                }
+                None => (a, b),
+            };
+            let (ma, mut mb) = (exec_multiset(&a), exec_multiset(&b));
+            // executions that the run WITHOUT restarts made without justification (known
+            // finding C03-F1: a pending backward projection re-runs projections) need not
+            // happen in the run with restarts; everything else has to match exactly, and the
+            // run with restarts must never execute more.
+            let mut ma = ma;
+            for (o, m) in [(&b, &mut mb), (&a, &mut ma)] {
+                for (p, k, d) in &o.oracle.violations {
+                    if p == "C03" && k == "projection-rerun-on-ABA-firewall" {
+                        let key = (d.get("node").and_then(Json::as_str).unwrap_or("").to_string(), d.get("epoch").and_then(Json::as_i).unwrap_or(-1) as u64);
+                        if let Some(c) = m.get_mut(&key) {
+                            *c = c.saturating_sub(1);
+                            rep.count("unjustified_projection_reruns_excluded_from_comparison_C03-F1", 1);
+                        }
+                    }
+                }
+                m.retain(|_, c| *c > 0);
+            }
             // (on a multi-thread runtime the order inside join_all / spawned reads is
             // timing dependent and, through C01-F1, changes in which epoch a node is
             // re-executed: the multiset comparison is made on deterministic runs only)
@@ -227,7 +269,7 @@ pub fn worker(ctx: &WorkerCtx) -> Report {
         if k == 0 {
             rep.sample(cj);
         }
-        if !a.shutdown_ok || !b.shutdown_ok {
+        if !shutdown_ok {
             rep.inconclusive.push(format!("case {idx}: engine still referenced at shutdown"));
         }
     }
